@@ -30,6 +30,7 @@ M = {
 "C03-s2": ("C03", "_run decrements the budget first and tests for zero afterwards; run/run_function reject an empty budget at entry.", "A host function that calls back into the interpreter and swallows the callback's Timeout; the outer loop then resumes with a zero budget (underflow: panic in debug, practically unlimited in release).", "caught at first run by C03.Z"),
 "C04-s2": ("C04", "ValueStack::set writes `data[index]` directly and bumps the height for index == height, without push's capacity check.", "The value stack running out exactly while begin_for_each creates its hidden locals with consecutive set calls: index out of bounds panic inside run.", "missed by C04 (C14.B caught it); C14.B is now shared into C04 as C04.H"),
 "C06-s2": ("C06", "register_upvalue always makes a new open upvalue the head of the list instead of inserting it at its sorted position.", "Captures registered in ascending slot order onto a list that does not hold the lower slot yet, closures used after the scope ended.", "missed; C06.N now requires the new node's `next` to be the search cursor and the head to be replaced only when the search found no predecessor. The agent's aside led to a genuine defect (CloseUpvalue did not release the slot: two captured locals in one block, fixed in 30a7d89)"),
+"C07-s2": ("C07", "CaoLangTable::append skips the `map.contains` probe when the last inserted key is Integer(len - 1) (array-like fast path).", "A table whose last inserted key is len-1 while key len is already present (t[2]=a; t[1]=b; append), then the append overwrites t[len].", "missed; new rule C07.A (the insert of append is dominated by the absent edge of map.contains(key))"),
 "C08-s2": ("C08", "resolve_function: the function-import lookup became `current_imports.get(function)` and lost its `if to.is_none()` guard.", "A bare call name that is both a function of the module (or root) and the key of a function import.", "caught at first run by C08.O"),
 "C09-s2": ("C09", "native_sorted compares keys as f64 with total_cmp instead of Value::partial_cmp.", "Integer keys above 2^53 that differ below the f64 spacing.", "missed; new rule C09.S (the comparator is Value's own ordering on the unconverted keys, stable sort, ascending)"),
 "C11-s2": ("C11", "OwnedEntry.value gets `#[serde(default, skip_serializing_if = ..)]`.", "A bincode round trip of a table with a nil value (positional format: the following bytes are read as the missing field).", "missed; C11.S now requires each field's serialize_field call to be unconditional"),
